@@ -130,7 +130,7 @@ def sanitizer_signature(text):
 
 
 def run_sharded(res, exe, args, rundir, nshards=NCPU, per_case_timeout=120, env_extra=None, crash_prop=None,
-                crash_is_violation=True, max_restarts=200, total_cases_hint=None, max_hangs=2):
+                crash_is_violation=True, max_restarts=60, total_cases_hint=None, max_hangs=2):
     """Runs `exe args --shard i --nshards N` for all shards in parallel.  A shard that dies is
     attributed to the case named in its progress file, recorded, and restarted after that case.
     A shard whose progress does not change for per_case_timeout seconds is killed (hang event)."""
